@@ -70,6 +70,15 @@ type c17Engine struct {
 	regErr   string
 	tpls     map[string]string
 	afterErr int // callback invocations that happened after the injected failure
+	mtime    int64 // what GetModifiedTime reports for every template (auto-reload runs)
+}
+
+// GetModifiedTime makes the counting loader timestamp aware (used with auto-reload)
+func (ce *c17Engine) GetModifiedTime(name string) (int64, error) {
+	if _, ok := ce.tpls[name]; !ok {
+		return 0, fmt.Errorf("%w: %s", twig.ErrTemplateNotFound, name)
+	}
+	return ce.mtime, nil
 }
 
 func (ce *c17Engine) hit(key string) error {
@@ -579,6 +588,30 @@ func runC17(cases string, res *Result) {
 						fail("oracle", "loader/cause-lost", "errors.Is(err, sentinel)", "false; err = "+r.err.Error(), variant, "")
 					} else if !to && r.out != "" {
 						fail("oracle", "loader/partial-output", `Render returns "" with the error`, strconv.Quote(r.out), variant, "")
+					}
+				}
+				// (a') the same failure at a reload: every template is cached by a first render, then reports a later
+				// modification time (auto-reload on), and the j-th re-read fails
+				if !eb && !ea {
+					ce = newC17Engine(c, c17Opts{loader: true})
+					ce.eng.SetAutoReload(true)
+					ce.mtime = 100
+					first := ce.run(c, to)
+					if first.err == nil && ce.loads >= j {
+						ce.mtime = 200
+						ce.loads, ce.loadSeq, ce.failed = 0, nil, ""
+						ce.opts.loadFailAt = j
+						r2 := ce.run(c, to)
+						res.Evaluations++
+						res.Hist["loader-fault-at-reload-runs"]++
+						if ce.failed != "" {
+							if r2.err == nil {
+								fail("oracle", "loader/reload-failure-swallowed", "err != nil and errors.Is(err, sentinel)",
+									"nil error, output "+strconv.Quote(r2.out+r2.written), variant+" (at a reload under auto-reload): the loader's failure was replaced by the stale template", "")
+							} else if !errors.Is(r2.err, c17Sentinel) {
+								fail("oracle", "loader/reload-cause-lost", "errors.Is(err, sentinel)", "false; err = "+r2.err.Error(), variant+" (at a reload)", "")
+							}
+						}
 					}
 				}
 				// (b) the template vanished: not-found from the loader
